@@ -265,8 +265,7 @@ def rule_v(F):
     from cao import mirutil as mu
     from cao import framebal as fb
     res = []
-    fns = [f for f in F.fns if f.mir and not f.is_closure and f.path.startswith("value::") and
-           ("OwnedValue" in f.path or "owned" in f.path.lower())]
+    fns = _owned_conversion_fns(F, closures=False)
     if not fns:
         raise AnchorMissing("conversion functions of OwnedValue in value.rs")
     n = 0
@@ -318,11 +317,144 @@ def rule_v(F):
         res.append(ok("C11.V", "C11/V/no-visited-set", fns[0].loc(), "the conversion keeps no set of visited tables (self-containing tables: known finding C04/R)"))
     return res
 
+def _owned_conversion_fns(F, closures=True):
+    """the hand-written functions of value.rs that build or take apart the owned form (the serde derives are not among them)"""
+    return [f for f in F.fns if f.mir and (closures or not f.is_closure) and str(f.raw.get("file", "")).endswith("value.rs")
+            and ("OwnedValue" in f.path or "OwnedEntry" in f.path or "owned" in f.path.lower()) and "_serde" not in f.path]
+
+
+LOSSY_ADAPTORS = ("filter", "filter_map", "skip", "skip_while", "take", "take_while", "step_by", "flat_map", "flatten", "dedup",
+                  "dedup_by", "dedup_by_key", "retain", "truncate", "find", "find_map", "nth", "last", "next_back")
+
+
+def _iteration_can_skip(f, du, err, call_block):
+    """call_block sits in a loop driven by Iterator::next; can one full iteration (next -> ... -> next) complete on a
+    non-error path without executing call_block?  Returns None when no driving `next` call is found."""
+    from cao.facts import callee_names
+    from cao import mirutil as mu
+    cfg = f.cfg
+    nexts = [bi for bi, t in mu.calls(f) if any(n.endswith("Iterator::next") or n.endswith("::next") for n in callee_names(t["func"]))
+             and cfg.dominates(bi, call_block) and bi in cfg.reachable_from(call_block)]
+    if not nexts:
+        return None
+    # innermost: the `next` closest to the call (dominated by all the others)
+    nb = [b for b in nexts if all(cfg.dominates(o, b) for o in nexts)][0]
+    t = f.blocks[nb]["term"]
+    if t.get("target") is None:
+        return None
+    seen = cfg.reachable_from(t["target"], avoid=set(err) | {call_block})
+    return nb in seen
+
+
+def rule_r(F):
+    """C11.R: every row of a table takes part in the round trip. (1) In the conversion of a runtime table to its owned form,
+    every row the iteration yields becomes exactly one OwnedEntry: each iteration of the loop over the rows reaches the push
+    of the entry on every non-error path (no `continue`, no filter) - or the entries are collected from an iterator chain
+    without a lossy adaptor. (2) In Vm::insert_value every OwnedEntry of an owned table is inserted: each iteration of the
+    loop over the entries reaches the table insertion. A row that is dropped on either side (say, rows whose value is nil)
+    is visible to the script: it counts in Len, is visited by ForEach and shifts the row numbers of everything after it."""
+    from cao.facts import DefUse, callee_names, op_local
+    from cao import mirutil as mu
+    res = []
+    # (1) Value -> OwnedValue
+    fns = _owned_conversion_fns(F)
+    if not fns:
+        raise AnchorMissing("conversion functions of OwnedValue in value.rs")
+    n = 0
+    for f in fns:
+        du = DefUse(f)
+        err = mu.error_exit_blocks(f)
+        for bi, t in mu.calls(f):
+            nm = callee_names(t["func"])
+            if not any(x.endswith("Vec::push") or x.endswith("VecDeque::push_back") for x in nm) or len(t["args"]) < 2:
+                continue
+            if "OwnedEntry" not in (f.local_ty(op_local(t["args"][1])) or "") if op_local(t["args"][1]) is not None else True:
+                continue
+            key = "C11/R/%s/every-row-becomes-an-entry" % f.name
+            skip = _iteration_can_skip(f, du, err, bi)
+            if skip is None:
+                res.append(undecided("C11.R", key, f.loc(t.get("ln")), "the push of an OwnedEntry is not inside a loop driven by Iterator::next"))
+                continue
+            n += 1
+            if skip:
+                res.append(bad("C11.R", key, f.loc(t.get("ln")),
+                               "%s can finish an iteration over the table's rows without pushing an entry for the row: the owned form "
+                               "leaves rows out (e.g. rows whose value is nil), so after a round trip the table is shorter, later rows "
+                               "move up and the restored value is not deeply equal to the original" % f.name))
+            else:
+                res.append(ok("C11.R", key, f.loc(t.get("ln")), "every iteration over the rows reaches the push of its OwnedEntry on every non-error path"))
+        # iterator-chain form: entries collected from the rows
+        if f.hir is not None:
+            for x in hir_walk(f.hir["body"]):
+                if x.get("k") == "mcall" and x["name"] in ("collect", "extend", "try_collect") and "OwnedEntry" in str(x.get("ty", "")):
+                    chain, cur = [], x
+                    while cur is not None and cur.get("k") == "mcall":
+                        chain.append(cur["name"])
+                        cur = hir_strip(cur["recv"])
+                    lossy = [c for c in chain if c in LOSSY_ADAPTORS]
+                    key = "C11/R/%s/every-row-becomes-an-entry" % f.name
+                    n += 1
+                    if lossy:
+                        res.append(bad("C11.R", key, f.loc(x.get("ln")), "%s collects the entries through %s: rows can be left out of the owned form"
+                                       % (f.name, "/".join(lossy))))
+                    else:
+                        res.append(ok("C11.R", key, f.loc(x.get("ln")), "entries are collected from the rows through %s" % "/".join(reversed(chain))))
+    if n == 0:
+        raise AnchorMissing("the place where a table's rows become OwnedEntry values (value.rs)")
+    # (2) OwnedValue -> Value: the functions and closures under Vm::insert_value that put an entry into the new table
+    m = 0
+    cg = F.callgraph
+    start = F.fn("vm::Vm::insert_value")
+    under = cg.reach(start.short, stop=lambda nm: not nm.startswith("vm::Vm::insert_"))
+    PER_ITEM = ("try_for_each", "for_each", "try_fold", "fold", "map", "all", "any")
+    for f in [f for f in F.fns if f.mir and (f.short in under or (f.is_closure and short(f.raw.get("root") or "") in under))]:
+        du = DefUse(f)
+        err = mu.error_exit_blocks(f)
+        cfg = f.cfg
+        for bi, t in mu.calls(f):
+            nm = callee_names(t["func"])
+            if not any(x.endswith("CaoLangTable::insert") or x.endswith("CaoLangTable::append") for x in nm):
+                continue
+            key = "C11/R/%s/every-entry-is-inserted" % (short(f.raw.get("root") or "").rsplit("::", 1)[-1] if f.is_closure else f.name)
+            if f.is_closure:
+                # the closure is the per-item body of an iterator adaptor of its parent: every non-error path through it inserts,
+                # and the chain it is handed to has no lossy adaptor
+                parent = F.fn(short(f.raw.get("root")), required=False)
+                lossy, driven = [], False
+                if parent is not None and parent.hir is not None:
+                    for x in hir_walk(parent.hir["body"]):
+                        if x.get("k") == "mcall" and x["name"] in PER_ITEM and any(hir_strip(a).get("k") == "closure" for a in x.get("args", [])):
+                            driven = True
+                            cur = hir_strip(x["recv"])
+                            while cur is not None and cur.get("k") == "mcall":
+                                if cur["name"] in LOSSY_ADAPTORS:
+                                    lossy.append(cur["name"])
+                                cur = hir_strip(cur["recv"])
+                if not driven:
+                    continue
+                m += 1
+                seen = cfg.reachable_from(0, avoid=set(err) | {bi})
+                skip = any(b in seen for b in cfg.return_blocks()) or bool(lossy)
+            else:
+                skip = _iteration_can_skip(f, du, err, bi)
+                if skip is None:
+                    continue
+                m += 1
+            if skip:
+                res.append(bad("C11.R", key, f.loc(t.get("ln")), "%s can finish an iteration over the owned entries without inserting the entry "
+                               "into the new table: the inserted value has fewer rows than the saved one" % f.name))
+            else:
+                res.append(ok("C11.R", key, f.loc(t.get("ln")), "every iteration over the entries reaches the insertion on every non-error path"))
+    if m == 0:
+        raise AnchorMissing("loop over the entries of an owned table in Vm::insert_value")
+    return res
+
 
 RULES = [
     Rule("C11.S", rule_s, 30, "derived Serialize impls write every field (Card.id excepted)", configs=("default", "release")),
     Rule("C11.I", rule_i, 1, "insert_value allocates every string from its own text", configs=("default", "release")),
     Rule("C11.V", rule_v, 1, "the conversion to the owned form refuses only what cannot be saved (visited sets are path-scoped)", configs=("default", "release")),
+    Rule("C11.R", rule_r, 2, "every row of a table becomes an entry of the owned form and every entry is inserted back", configs=("default", "release")),
     Rule("C11.M", rule_m, 4, "hand-written map impls are symmetric", configs=("default", "release")),
     Rule("C11.K", shared(_c13.rule_k, "C13.K", "C11.K"), 2, "decoded HandleTables keep a free slot (shared with C13.K)", configs=("default", "release")),
     Rule("C11.L", shared(_c12.rule_k, "C12.K", "C11.L"), 2, "decoded CaoHashMaps keep a free slot (shared with C12.K)", configs=("default", "release")),
